@@ -97,10 +97,16 @@ class ReadOnlyCheck:
     def readonly_commands(self, root, mpath):
         parent = os.path.dirname(root)
         cmds = []
-        for pre in ([], ["-q"], ["-v"]):
+        relm = os.path.join("..", "meta", "m.torrent")
+        relroot = os.path.join("..", "data", NAME)
+        for pre in ([], ["-q"], ["-v"], ["-q", "-v"], ["-v", "-q"]):
             for word in ("recheck", "check"):
                 for content in (root, parent):
                     cmds.append(("cli", pre + [word, mpath, content]))
+            # relative spellings (the working directory is sandbox/cwd)
+            cmds.append(("cli", pre + ["recheck", relm, relroot]))
+            cmds.append(("cli", pre + ["info", relm]))
+            cmds.append(("cli", pre + ["magnet", relm]))
             for word in ("info",):
                 cmds.append(("cli", pre + [word, mpath]))
             for word in ("magnet", "m"):
@@ -189,7 +195,7 @@ class ReadOnlyCheck:
                     "pstate": g["pstate"]})
 
     def create_cases(self, tier):
-        heads = ["create", "new", "implicit"]
+        heads = ["create", "new", "implicit", "config"]
         outs = ["file", "file-existing", "dir/", "default", "default-existing"]
         progs = ["0", "1", "2"]
         mags = [False, True]
@@ -209,6 +215,11 @@ class ReadOnlyCheck:
             cwd = os.path.join(sb, "cwd")
             outdir = os.path.join(sb, "outdir")
             argv = [] if cc["head"] == "implicit" else [cc["head"]]
+            if cc["head"] == "config":
+                cfg = os.path.join(cwd, "my.ini")
+                world.write_file(cfg, b"[config]\ncomment = from config\n"
+                                      b"announce =\n    http://c/a\n")
+                argv = ["create", "--config", "--config-path", cfg]
             argv += [root, "--meta-version", version, "--prog", cc["prog"],
                      "--piece-length", str(P0)]
             if cc["out"].startswith("file"):
